@@ -710,6 +710,7 @@ def _predicates(model, rep):
 
     def mk():
         return Obj(mcls, {"p": pts, "facets": "FACETS", "t": "CELLS",
+                          "nvertices": Poly.sym("nvertices"),
                           "boundary_facets": PyFunc(lambda a, k, n: "BF"),
                           "boundary_nodes": PyFunc(lambda a, k, n: "BN")})
     cases = [("facets_satisfying", "FACETS", "BF"),
@@ -733,13 +734,25 @@ def _predicates(model, rep):
                               and r[0] == "nonzero"
                               and r[1] == ("test", pts)))
             if not table:
-                # nodes: the test receives the point array itself
+                # nodes: the test receives the *vertex* columns of the point
+                # array - the array also stores the mid-side nodes of
+                # second-order meshes and unused points, which have no
+                # vertex DOFs (indices beyond nodal_dofs)
                 core = r[1] if bo and isinstance(r, tuple) and \
                     r[0] == "isect" else r
-                ok = (isinstance(core, tuple) and core[0] == "nonzero"
-                      and isinstance(core[1], tuple) and core[1][0] == "test"
-                      and core[1][1] is pts
-                      and (not bo or (r[0] == "isect" and r[2] == bnd)))
+                NVS = Poly.sym("nvertices")
+                arg_ok = (isinstance(core, tuple) and core[0] == "nonzero"
+                          and isinstance(core[1], tuple)
+                          and core[1][0] == "test"
+                          and isinstance(core[1][1], tuple)
+                          and core[1][1][0] == "gather"
+                          and isinstance(core[1][1][1], slice)
+                          and core[1][1][1].start in (None, 0)
+                          and core[1][1][1].step is None
+                          and core[1][1][1].stop is not None
+                          and Poly.coerce(core[1][1][1].stop) == NVS)
+                ok = arg_ok and (not bo or (r[0] == "isect"
+                                            and r[2] == bnd))
             cons = f"Mesh.{meth}[{'boundary only' if bo else 'all'}]"
             _v(rep, R4, ok, cons,
                ("entities whose midpoint satisfies the predicate"
@@ -748,7 +761,9 @@ def _predicates(model, rep):
                f"Mesh.{meth}",
                f"a predicate selects {r!r}: it must be evaluated at the "
                f"midpoints of the {'facets' if meth[0] == 'f' else 'cells' if table else 'vertices'}"
-               f" (mean over the entity's vertices)"
+               f" (mean over the entity's vertices; for vertices: at the "
+               f"vertex columns p[:, :nvertices] only - further columns "
+               f"are mid-side or unused points without vertex DOFs)"
                + (" and then be restricted to the boundary" if bo else ""),
                fn.lineno, path)
     # tagging keeps index arrays as given, evaluates predicates, and merges
@@ -802,6 +817,9 @@ _D = "skfem/assembly/dofs.py"
 _AB = "skfem/assembly/basis/abstract_basis.py"
 _M = "skfem/mesh/mesh.py"
 MUTANTS = [
+    ("vertex predicate evaluated on all stored points",
+     ("skfem/mesh/mesh.py", "        p = self.p[:, :self.nvertices]\n",
+      "        p = self.p\n"), "C07-R4"),
     ("complement taken within the DOFs of the basis' own cells",
      ("skfem/assembly/basis/abstract_basis.py",
       "        return np.setdiff1d(np.arange(self.N), np.concatenate(D))",
